@@ -341,6 +341,10 @@ impl Mutation {
         let all = genes_a | genes_b;
         let common = genes_a & genes_b;
 
+        if all.is_empty() {
+            return 0.0;
+        }
+
         usize_to_f32(common.len()) / usize_to_f32(all.len())
     }
 
